@@ -621,8 +621,8 @@ func (p *Path) checkInterface(itype *types.Interface, x iface) string {
 	if x.t == nil {
 		return "interface conversion: interface is nil"
 	}
-	if _, ok := x.v.(rtype); ok && isFakeType(x.t) {
-		return "" // reflect.Type
+	if isFakeType(x.t) {
+		return "" // reflect.Type, codec
 	}
 	if meth, _ := types.MissingMethod(x.t, itype, true); meth != nil {
 		return fmt.Sprintf("interface conversion: %v is not %v: missing method %s", x.t, itype, meth.Name())
@@ -759,7 +759,7 @@ func (fr *frame) callBuiltin(callpos token.Pos, fn *ssa.Builtin, args []value) v
 		return r
 
 	case "panic":
-		panic(targetPanic{args[0], callpos})
+		panic(targetPanic{args[0], callpos, fr.stack()})
 
 	case "recover":
 		return fr.doRecover()
